@@ -17,10 +17,10 @@ CONSTANTS
  Mode = "S"
  MCSPE = 2
  MCEpochs <- E12
- MCSlots = {2, 3, 4}
+ MCSlots = {3, 5}
  MCSOps <- OpsDP
  MCValSets <- A12
- MCMaxReal = 1
+ MCMaxReal = 0
  MCBlocks <- Blk1
  MCErrs = FALSE
  MCScribble = FALSE
